@@ -437,3 +437,32 @@ def resolve_model(mapping, content_type, default, naive=False):
     if sp.kind == 'raise':
         return NOT_FOUND               # a malformed type designates nothing
     return None                        # not decidable by the statement
+
+
+def resolve_allowed(mapping, content_type, default):
+    """-> (allowed outcomes, class) - every outcome the statement admits, the expected one first.
+
+    class 'rule'      : one answer (exact key / matching rule / default fallback / 415)
+    class 'bad-key'   : the mapping holds a key that is not a type/subtype pair and the type is not an
+                        exact key: the documented rule cannot rank such a candidate (best_match documents
+                        InvalidMediaType for it), so it designates nothing -> 415; an implementation
+                        that ranks only the well-formed keys is admitted too. Never anything else.
+    class 'undecided' : no single reading (keys/types outside the grammar): only "a handler that is in
+                        the current mapping, or 415".
+    """
+    mt = default if (not content_type or content_type == '*/*') else content_type
+    if mapping and mt not in mapping:
+        bad = [k for k in mapping if parse_one(k, False).level == REJECT]
+        if bad:
+            rest = {k: v for k, v in mapping.items() if k not in bad}
+            alt = resolve_model(rest, content_type, default)
+            out = [NOT_FOUND]
+            if alt is None:
+                out.extend(rest.values())
+            elif alt is not NOT_FOUND:
+                out.append(alt)
+            return out, 'bad-key'
+    one = resolve_model(mapping, content_type, default)
+    if one is None:
+        return [NOT_FOUND] + list(mapping.values()), 'undecided'
+    return [one], 'rule'
